@@ -1610,6 +1610,57 @@ def run(index, rep, tier):
                                       "%s calls the recursive `%s` (one Python frame per nesting level of the text) outside any handler for RecursionError: a statement nested deeper than the interpreter's recursion limit - `(` repeated 3000 times - is answered with a bare RecursionError from inside the library instead of a data-parse error" % (caller.qualname, f.name))
         rep.floor("R20.25", "entries into recursive reader methods", 1, n25)
 
+    # ---- R20.26 a piece of the document may be empty
+    with rep.section("R20.26"):
+        rep.rule("R20.26", "a piece of the document may be empty: in the reader-side modules a name bound to text taken from the input (the result of .strip() / .group() / a tokenizer read / readline) is not subscripted with a constant index unless a test of that name (truthiness, len(), startswith / endswith) dominates the subscript - `val[0]` on a metadata value that is only white space is an IndexError from inside the library")
+        STRSRC = ("strip", "lstrip", "rstrip", "group", "readline", "next_token", "next_token_ucase", "require_next_token", "require_next_token_ucase")
+        nstr = nsub = 0
+        for m in ("dendropy.dataio.nexusprocessing", "dendropy.dataio.nexusreader", "dendropy.dataio.newickreader", "dendropy.dataio.phylipreader", "dendropy.dataio.fastareader", "dendropy.dataio.tokenizer", "dendropy.dataio.nexusyielder", "dendropy.dataio.newickyielder"):
+            for fi in index.functions_in_module(m):
+                strs = set()
+                for st in ast.walk(fi.node):
+                    if isinstance(st, ast.Assign) and isinstance(st.value, ast.Call) and isinstance(st.value.func, ast.Attribute) and st.value.func.attr in STRSRC:
+                        strs |= {t.id for t in st.targets if isinstance(t, ast.Name)}
+                nstr += len(strs)
+                if not strs:
+                    continue
+                g = None
+                for x in ast.walk(fi.node):
+                    if isinstance(x, ast.Subscript) and isinstance(x.value, ast.Name) and x.value.id in strs and isinstance(x.slice, ast.Constant) and isinstance(x.slice.value, int) and isinstance(x.ctx, ast.Load):
+                        nsub += 1
+                        g = g or cfg_of(fi)
+                        nd = node_of_ast(g, x)
+                        nm = x.value.id
+
+                        def tested(n, nm=nm):
+                            if n.kind != "test":
+                                return False
+                            t = n.ast
+                            if isinstance(t, ast.Name) and t.id == nm:
+                                return True
+                            return any((isinstance(c, ast.Call) and call_name(c) in ("len", "startswith", "endswith") and nm in norm(c)) for c in ast.walk(t))
+                        ok = nd is not None and g.dominated_by(nd, tested, follow_exc=False)
+                        # the very test that contains the subscript does not count for itself, but an earlier operand of the same `and` chain does (expanded by the CFG)
+                        rep.check(ok, "R20.26", fi.qualname, "`%s` on text that may be empty" % norm(x), fn_where(fi, x), "%s: `%s` follows a test of `%s`" % (fi.name, norm(x), nm),
+                                  "%s evaluates `%s`, and `%s` is text cut out of the document (stripped, matched or read as a token) that can be empty: a metadata comment such as `[&rate = ]` leaves an empty value, and the subscript raises IndexError from inside the library instead of a data-parse error or a tree without that annotation" % (fi.qualname, norm(x), nm))
+        rep.floor("R20.26", "names bound to text taken from the document", 20, nstr)
+        rep.ob("R20.26", "src/dendropy/dataio", "%d constant subscripts of such names examined" % nsub, True)
+
+    # ---- R20.27 a sentinel loop reads with the reader that notices the end of the stream
+    with rep.section("R20.27"):
+        rep.rule("R20.27", "a loop that reads tokens up to a sentinel uses the reader that notices the end of the stream: `iter(<tokenizer>.next_token..., <sentinel>)` is not built on the non-raising getters (next_token / next_token_ucase answer None for ever once the stream is exhausted, so the sentinel never comes and a document cut off inside the statement spins the reader for ever)")
+        n27 = 0
+        for m in ("dendropy.dataio.nexusreader", "dendropy.dataio.newickreader", "dendropy.dataio.nexusyielder", "dendropy.dataio.newickyielder", "dendropy.dataio.nexusprocessing", "dendropy.dataio.phylipreader", "dendropy.dataio.fastareader"):
+            for fi in index.functions_in_module(m):
+                for c in calls_in(fi.node, nested=True):
+                    if isinstance(c.func, ast.Name) and c.func.id == "iter" and len(c.args) == 2:
+                        n27 += 1
+                        a0 = c.args[0]
+                        soft = isinstance(a0, ast.Attribute) and a0.attr in ("next_token", "next_token_ucase", "readline", "read")
+                        rep.check(not soft, "R20.27", fi.qualname, "sentinel loop over `%s`" % norm(a0)[:50], fn_where(fi, c), "%s: %s" % (fi.name, norm(c)[:50]),
+                                  "%s loops with `%s`: `%s` does not raise at the end of the stream, it returns None (or '') every time it is asked, so when the document ends before the sentinel the loop never terminates - every prefix of a valid document that stops inside this statement hangs the reader" % (fi.qualname, norm(c)[:60], norm(a0)[:40]))
+        rep.ob("R20.27", "src/dendropy/dataio", "%d two-argument iter() calls in the readers examined" % n27, True)
+
 
 def _branch_calls_raiser(cfg, n):
     for lab, t in n.succ:
